@@ -82,8 +82,32 @@ func drawBytes(pkg string) func(*rapid.T) Case {
 		default:
 			c.B = gen.Bytes().Draw(t, "b")
 		}
+		poison(t, &c)
 		drawOpts(t, &c)
 		return c
+	}
+}
+
+// poison: one case in four gets a run of hostile bytes inside a string
+// literal of either text, and/or whitespace around the texts.
+func poison(t *rapid.T, c *Case) {
+	if gen.OneIn(t, 4, "poison") {
+		if rapid.Bool().Draw(t, "pwhich") {
+			c.A = gen.PoisonStrings(t, c.A, "pa")
+		} else {
+			c.B = gen.PoisonStrings(t, c.B, "pb")
+		}
+	}
+	if gen.OneIn(t, 6, "pad") {
+		ws := rapid.SampledFrom([]string{" ", "\n", "\r", "\t", "\r\n", " \r ", "\n\n", "\t \r"}).Draw(t, "ws")
+		switch gen.Uniform(t, 0, 2, "padwhere") {
+		case 0:
+			c.A = append([]byte(ws), c.A...)
+		case 1:
+			c.B = append([]byte(ws), c.B...)
+		default:
+			c.A = append(c.A, ws...)
+		}
 	}
 }
 
@@ -125,6 +149,7 @@ func drawStruct(pkg string) func(*rapid.T) Case {
 			patch.Arr = append([]*ref.V{first}, patch.Arr...)
 		}
 		c.B = []byte(patch.Text(false))
+		poison(t, &c)
 		drawOpts(t, &c)
 		return c
 	}
@@ -304,7 +329,7 @@ func TestPropBytesLegacy(t *testing.T)  { ev.RunProp(t, "C04", bytesLegacy) }
 func TestPropStructLegacy(t *testing.T) { ev.RunProp(t, "C04", structLegacy) }
 func TestReplay(t *testing.T) {
 	r := bytesV5.Replayer()
-	ev.Replay(t, map[string]ev.Replayer{deepUnit.Name: deepUnit.Replayer(), bytesV5.Name: r, structV5.Name: r, bytesLegacy.Name: r, structLegacy.Name: r, "fuzz-v5": r, "fuzz-legacy": r})
+	ev.Replay(t, map[string]ev.Replayer{deepUnit.Name: deepUnit.Replayer(), tableUnit.Name: r, bytesV5.Name: r, structV5.Name: r, bytesLegacy.Name: r, structLegacy.Name: r, "fuzz-v5": r, "fuzz-legacy": r})
 }
 
 // ---------- deep nesting at the codec's limit ----------
@@ -461,6 +486,8 @@ func addSeeds(f *testing.F) {
 	for _, s := range gen.HostileConsts {
 		docs = append(docs, s)
 	}
+	docs = append(docs, "{\"\xff\xff\xff\xff\xff\xff\xff\":\"\xed\xa0\x80\xed\xa0\x80\xed\xa0\x80\xed\xa0\x80\"}", "\r{\"a\":1}", "\r[1]")
+	patches = append(patches, "[{\"op\":\"add\",\"path\":\"/\xff\xff\xff\xff\xff\xff\",\"value\":\"\x80\x80\x80\x80\x80\x80\x80\x80\"}]")
 	for i, d := range docs {
 		for j, p := range patches {
 			f.Add([]byte(d), []byte(p), uint8((i*7+j*3)%16), int64([]int{0, 1, 1000}[(i+j)%3]), uint8(j%3))
@@ -480,3 +507,82 @@ func fuzzTarget(pkg string) func(t *testing.T, a, b []byte, bits uint8, limit in
 
 func FuzzV5(f *testing.F)     { addSeeds(f); f.Fuzz(fuzzTarget("v5")) }
 func FuzzLegacy(f *testing.F) { addSeeds(f); f.Fuzz(fuzzTarget("legacy")) }
+
+// ---------- enumerated table of operation shapes ----------
+
+// tableCases enumerates every single-operation patch over small pools of
+// member shapes (each of op/path/from/value present with several values,
+// absent, or null - whatever DecodePatch makes of it), alone and after a
+// replacement of the root, against a pool of small documents. Violations
+// confined to one shape (a missing member on one operation kind at the root
+// path) are reached by construction rather than by luck.
+func tableCases(pkg string) []Case {
+	ops := []string{`"add"`, `"remove"`, `"replace"`, `"move"`, `"copy"`, `"test"`, `"bogus"`}
+	paths := []string{"", `null`, `""`, `"/a"`, `"/a/b"`, `"/0"`, `"/-"`, `"/zz"`, `"/a/0"`}
+	froms := []string{"", `null`, `""`, `"/a"`, `"/0"`, `"/zz"`}
+	values := []string{"", `null`, `1`, `"s"`, `{}`, `{"b":null}`, `[]`, `[null]`}
+	docs := []string{`{}`, `{"a":1}`, `{"a":{"b":1}}`, `{"a":null}`, `{"a":[1]}`, `[]`, `[1]`, `[null]`, `[[1]]`, `[{"b":1}]`, `null`, ``}
+	prefixes := []string{"",
+		`{"op":"replace","path":"","value":null}`, `{"op":"replace","path":"","value":{}}`, `{"op":"replace","path":"","value":[]}`,
+		`{"op":"replace","path":"","value":[null]}`, `{"op":"replace","path":"","value":{"a":null}}`, `{"op":"add","path":"/a","value":null}`}
+	bits := []uint8{15, 0, 5, 10}
+	if pkg == "legacy" {
+		bits = []uint8{1, 0}
+	}
+	var out []Case
+	for _, op := range ops {
+		for _, p := range paths {
+			for _, f := range froms {
+				for _, v := range values {
+					o := `{"op":` + op
+					if p != "" {
+						o += `,"path":` + p
+					}
+					if f != "" {
+						o += `,"from":` + f
+					}
+					if v != "" {
+						o += `,"value":` + v
+					}
+					o += "}"
+					for pi, pre := range prefixes {
+						patch := "[" + o + "]"
+						if pre != "" {
+							patch = "[" + pre + "," + o + "]"
+						}
+						for di, d := range docs {
+							if pre != "" && di%3 != pi%3 {
+								continue // after a root replacement the original document hardly matters
+							}
+							for _, b := range bits {
+								out = append(out, Case{Pkg: pkg, A: []byte(d), B: []byte(patch), Bits: b, Limit: 0})
+							}
+						}
+					}
+				}
+			}
+		}
+	}
+	return out
+}
+
+var tableUnit = ev.Unit[Case]{
+	Name:  "operation-table",
+	Rule:  "complete table, v5 and legacy: one operation built from op in {add, remove, replace, move, copy, test, bogus} x path in {absent, null, \"\", /a, /a/b, /0, /-, /zz, /a/0} x from in {absent, null, \"\", /a, /0, /zz} x value in {absent, null, 1, \"s\", {}, {\"b\":null}, [], [null]}, alone or after one of 6 root replacements / a null member, against 12 small documents (objects, arrays, null, empty) x option words {all on, all off, two mixed} (legacy: negative indices on/off); same calls and oracle as the byte-level unit; non-trivial = the patch decoded and the document is well-formed; enumerated completely",
+	Check: check, Guard: false,
+}
+
+func TestTable(t *testing.T) {
+	k, n := ev.Shard()
+	var mine []Case
+	i := 0
+	for _, pkg := range []string{"v5", "legacy"} {
+		for _, c := range tableCases(pkg) {
+			if i%n == k {
+				mine = append(mine, c)
+			}
+			i++
+		}
+	}
+	ev.RunCases(t, "C04", tableUnit, mine)
+}
